@@ -82,9 +82,10 @@ def other_fields_diff(ta, tb, by_site):
         lb = groups_b.get(s_, [])
         # every input row's other fields must be found (as a subset of keys) among the output rows
         rest = [json.loads(x) for x in lb]
-        for x in la:
+        for x in sorted(la, key=lambda t: -len(json.loads(t))):      # richest rows first, {} last
             xd = json.loads(x)
-            hit = next((y for y in rest if all(k in y and y[k] == v for k, v in xd.items())), None)
+            hit = next((y for y in rest if y == xd), None) or \
+                next((y for y in rest if all(k in y and y[k] == v for k, v in xd.items())), None)
             if hit is None:
                 return "site %d: no output row keeps %r (output rows %r)" % (s_, xd, lb)
             rest.remove(hit)
